@@ -19,10 +19,10 @@ CHECKS = {
  "C03": ("path-enumerated case tables of the sync translators (switches or constant package-level maps) compared with the reference library mapping; positive abstract paths of the recognisers; dispatch-order facts; spawn-shape facts on the abstract paths of the go-statement translation",
          "Decides the translator-side necessary conditions for concurrent programs: every sync method/function is mapped to the GooseLang library function of the reference table and nothing else is, the type recognisers accept exactly *sync.Mutex/Cond/WaitGroup and are consulted before the generic method path, go statements are translated only for argument-less function literals with no control effect. Level 'other'.",
          "Interleavings of the emitted program under GooseLang's scheduler are not decided (scheduler and libraries are not in the repository).", "DESIGN.md §4 C03"),
- "C04": ("name-provenance classification at global-reference sinks paired with addDep on all paths (SSA), registration dominance at every spec-to-declaration producer call, CFG facts of the emission function (found by role), path-sensitive ok-discipline of (info, ok) lookups",
+ "C04": ("name-provenance classification at global-reference sinks paired with addDep on all paths (SSA), registration dominance at every spec-to-declaration producer call, CFG facts of the emission function (found by role), path-sensitive ok-discipline of (info, ok) lookups, value flow from the per-unit tracker loop back to the declaration splitter (ordering unit = one definition), backward slice of conversion names to argument/parameter positions",
          "Decides, for every input program at once, the translator-side necessary conditions of defined-before-use and unique naming: every emitted same-package global reference is paired with dependency recording on every path, definition names are registered in their final form, the emission closure marks, visits every recorded dependency unconditionally and only then appends, method names come from one function. Level 'other'.",
-         "Coq accepting the file is not decided. One known finding (T__m collision).", "DESIGN.md §4 C04"),
- "C05": ("per-path delimiter balance of every printer function, needs_paren classification of every emitter, taint from Go text to Coq string/comment sinks with value-specific guard facts, control-dependence of configuration flags, cross-check of sibling printers (path signatures of text-buffer operations), sentence shape of declaration printers",
+         "Coq accepting the file is not decided. Three known findings (T__m collision; struct-to-interface conversions named after the wrong parameter/argument position at the definition and at the use site).", "DESIGN.md §4 C04"),
+ "C05": ("per-path delimiter balance of every printer function, needs_paren classification of every emitter, taint from Go text to Coq string/comment sinks with value-specific guard facts, control-dependence of configuration flags, cross-check of sibling printers (path signatures of text-buffer operations), sentence shape of declaration printers, dominance of the comment-only type test over every whole-line write of a binding's expression",
          "Decides by structural induction over the printer (every emitter balanced given balanced holes, every emitter honours/passes needs_paren or is closed/atomic) and by taint analysis that source text reaches Coq strings only under a no-quote fact for that value and comments only through the two-pass sanitiser, that flags cannot influence bodies and that no declaration text is used as a term. Level 'other'.",
          "Coq's actual parser is not run; its documented lexical rules are used. Three known findings (for-init and non-tail block scope leak, quotes inside comments).", "DESIGN.md §4 C05"),
  "C06": ("map-range idiom classification, global-store and mutating-method scan, goroutine capture analysis (own-slot writes, per-iteration captured index), ambient-source and channel-receive who-may-call, type-directed scan of the operands formatted into structured-error messages (no address-printing types), with a positive-control package",
@@ -57,7 +57,7 @@ CHECKS = {
          "What go/packages matches and file-system effects are not decided.", "DESIGN.md §4 C17"),
  "C18": ("regular-language equivalence (regexp/syntax -> NFA -> simultaneous subset construction) of the two generators' patterns; facts and ordered events on the abstract interprocedural paths of main (generators identified by what they write; callbacks spliced in; suffix predicates incl. table-driven helpers) for filters, scan loop and emissions (symbolic reconstruction of the matched name); the generated Go text is assembled from the constant templates, parsed (go/parser), resolved, and type-checked against the semantics package through a go/packages overlay (go/types; nothing is executed)",
          "Decides that both generators match exactly the same lines (language equivalence of the two regex literals and of their groups, name reconstruction), apply the same file filter, emit exactly one test per match with Fail iff the failing group is non-empty, and truncate the output file. Level 'other'.",
-         "Matches inside raw strings/block comments are a shared limitation of the line-regex approach: not decided.", "DESIGN.md §4 C18"),
+         "Matches inside raw strings/block comments are a shared limitation of the line-regex approach: not decided. One known finding (testX and failing_testX share the suite method name TestX).", "DESIGN.md §4 C18"),
 }
 
 NOT_APPLICABLE = {
